@@ -41,7 +41,7 @@ func (actScen) Rule(prop string) string {
 	if prop == "C19" {
 		return "case = a project tree with decoys (.gitignore, .env, notes, files named like outputs, nested directories) + a spokfile that is valid / has a syntax error / calls an undefined builtin / has a failing exec / defines a task twice, + a sequence of 2-6 invocations drawn from {no args, task names, --show, --vars, --fmt, --init, --force, --quiet, --json, --debug and combinations} from the root or a nested directory, so that state created by one action (cache dir, .gitignore lines, a demo spokfile in a nested directory) is present for the next. Oracle: snapshot diff of $HOME per invocation is a subset of what the action may touch. distinct_nontrivial = distinct (spokfile kind, flag set, cwd class, existing-state class, outcome) tuples."
 	}
-	return "case = a spokfile of 1-5 tasks (0-2 commands printing distinct markers to stdout and stderr, with/without docstrings, with/without file and task dependencies, with/without a task named default), 0-3 variables, and 2-6 invocations over {--json, --quiet, --force, plain, --show, --vars, no arguments}, first and repeated so that skipped tasks appear. Oracle: --json prints exactly one JSON document listing exactly the closure in execution order with skipped flags and, per executed command, its text, stdout, stderr and status; --quiet prints nothing; --show lists every task once sorted by name with its docstring; --vars every variable with its value; no arguments runs default or lists. distinct_nontrivial = distinct (flag set, number of tasks run/skipped, default defined?, docs pattern) tuples."
+	return "case = a spokfile of 1-5 tasks (0-2 commands printing distinct markers to stdout and stderr, one task in five with an extra plain command that contains and prints percent signs, with/without docstrings, with/without file and task dependencies, with/without a task named default), 0-3 variables, and 2-6 invocations over {--json, --quiet, --force, plain, --show, --vars, no arguments}, first and repeated so that skipped tasks appear. Oracle: --json prints exactly one JSON document listing exactly the closure in execution order with skipped flags and, per executed command, its text, stdout, stderr and status; --quiet prints nothing; --show lists every task once sorted by name with its docstring; --vars every variable with its value; no arguments runs default or lists. distinct_nontrivial = distinct (flag set, number of tasks run/skipped, default defined?, docs pattern) tuples."
 }
 
 var acFlagSets = [][]string{{}, {"--json"}, {"--quiet"}, {"--force"}, {"--force", "--json"}, {"--debug"}, {"--json", "--debug"}, {"--quiet", "--debug"},
